@@ -1,8 +1,8 @@
 package main
 
 import (
-	"github.com/lugu/qiloop/type/object"
 	"fmt"
+	"github.com/lugu/qiloop/type/object"
 	"io/ioutil"
 	"log"
 	"strconv"
@@ -119,15 +119,31 @@ func childSessionStress(a []string) string {
 		srv   bus.Server
 		names []string
 	}
+	// "wide": six endpoints with one service each; the first is advertised behind 1500 addresses nobody dials
+	// (the range SelectEndPoint skips), so that finding its connection again takes a while; every goroutine repeats
+	// its request
+	wide := len(a) > 3 && a[3] == "wide"
+	nhosts, perHost, iters := 2, 2, 1
+	if wide {
+		nhosts, perHost, iters = 6, 1, 25
+	}
 	var hosts []*host
-	for i := 0; i < 2; i++ {
+	for i := 0; i < nhosts; i++ {
 		addr := util.NewUnixAddr()
 		l, err := qnet.Listen(addr)
 		if err != nil {
 			return "setup-error:" + err.Error()
 		}
 		cl := &countingListener{Listener: l, delay: time.Duration(1+r.Intn(4)) * time.Millisecond}
-		ns, err := services.Namespace(hostSess, []string{addr})
+		addrs := []string{addr}
+		if wide && i == 0 {
+			addrs = nil
+			for k := 0; k < 1500; k++ {
+				addrs = append(addrs, fmt.Sprintf("tcp://198.18.0.1:%d", 10000+k))
+			}
+			addrs = append(addrs, addr)
+		}
+		ns, err := services.Namespace(hostSess, addrs)
 		if err != nil {
 			return "setup-error:" + err.Error()
 		}
@@ -137,7 +153,7 @@ func childSessionStress(a []string) string {
 		}
 		defer srv.Terminate()
 		h := &host{l: cl, srv: srv}
-		for j := 0; j < 2; j++ {
+		for j := 0; j < perHost; j++ {
 			name := fmt.Sprintf("Probe%d_%d", i, j)
 			if _, err := srv.NewService(name, pong.PingPongObject(&probeImpl{name: name + "/"})); err != nil {
 				return "setup-error:" + err.Error()
@@ -189,7 +205,7 @@ func childSessionStress(a []string) string {
 		}
 		time.Sleep(20 * time.Millisecond) // let the service list settle
 		var wg sync.WaitGroup
-		errs := make(chan string, n)
+		errs := make(chan string, n*(iters+1))
 		start := make(chan struct{})
 		for g := 0; g < n; g++ {
 			name := names[1+r.Intn(len(names)-1)]
@@ -197,6 +213,9 @@ func childSessionStress(a []string) string {
 				name = names[0]
 			}
 			if len(a) > 3 && a[3] == "same" { // every goroutine asks for the same service
+				name = names[1]
+			}
+			if wide && g%2 == 0 { // half of them for the service behind the long address list
 				name = names[1]
 			}
 			// some requests name a service that is not registered (by name, or by identifier in an object
@@ -208,53 +227,56 @@ func childSessionStress(a []string) string {
 			go func(g int, name string) {
 				defer wg.Done()
 				<-start
-				var proxy bus.Proxy
-				var err error
-				if name == "?unknown" {
-					if g%3 == 2 {
-						// a registered service, an object it does not have: refused by the service itself, over a
-						// connection that is fine and stays the one connection to that endpoint
-						_, err = sess.Proxy(names[1+g%(len(names)-1)], 4242+uint32(g))
+				for it := 0; it < iters; it++ {
+					var proxy bus.Proxy
+					var err error
+					if name == "?unknown" {
+						if g%3 == 2 {
+							// a registered service, an object it does not have: refused by the service itself, over a
+							// connection that is fine and stays the one connection to that endpoint
+							_, err = sess.Proxy(names[1+g%(len(names)-1)], 4242+uint32(g))
+							if err == nil {
+								errs <- "unknown-object: request accepted"
+							}
+							return
+						}
+						if g%2 == 1 {
+							ref := refs[names[1]]
+							ref.ServiceID = 4000 + uint32(g)
+							_, err = sess.Object(ref)
+						} else {
+							_, err = sess.Proxy(fmt.Sprintf("NoSuchService%d", g), 1)
+						}
 						if err == nil {
-							errs <- "unknown-object: request accepted"
+							errs <- "unknown-service: request accepted"
 						}
 						return
 					}
-					if g%2 == 1 {
-						ref := refs[names[1]]
-						ref.ServiceID = 4000 + uint32(g)
-						_, err = sess.Object(ref)
+					if ref, ok := refs[name]; ok && g%2 == 1 {
+						// an object request: the reference names the service by its id
+						proxy, err = sess.Object(ref)
+						if err == nil && proxy.ServiceID() != ref.ServiceID {
+							errs <- fmt.Sprintf("object:%s: proxy of service %d for a reference to service %d", name, proxy.ServiceID(), ref.ServiceID)
+							return
+						}
 					} else {
-						_, err = sess.Proxy(fmt.Sprintf("NoSuchService%d", g), 1)
+						proxy, err = sess.Proxy(name, 1)
 					}
-					if err == nil {
-						errs <- "unknown-service: request accepted"
-					}
-					return
-				}
-				if ref, ok := refs[name]; ok && g%2 == 1 {
-					// an object request: the reference names the service by its id
-					proxy, err = sess.Object(ref)
-					if err == nil && proxy.ServiceID() != ref.ServiceID {
-						errs <- fmt.Sprintf("object:%s: proxy of service %d for a reference to service %d", name, proxy.ServiceID(), ref.ServiceID)
+					if err != nil {
+						errs <- "proxy:" + name + ":" + err.Error()
 						return
 					}
-				} else {
-					proxy, err = sess.Proxy(name, 1)
-				}
-				if err != nil {
-					errs <- "proxy:" + name + ":" + err.Error()
-					return
-				}
-				if name == "ServiceDirectory" {
-					return
-				}
-				arg := fmt.Sprintf("g%d", g)
-				got, err := pong.MakePingPong(sess, proxy).Hello(arg)
-				if err != nil {
-					errs <- "call:" + err.Error()
-				} else if got != "echo:"+name+"/"+arg {
-					errs <- "wrong-answer:" + got + " from " + name
+					if name == "ServiceDirectory" {
+						return
+					}
+					arg := fmt.Sprintf("g%d", g)
+					got, err := pong.MakePingPong(sess, proxy).Hello(arg)
+					if err != nil {
+						errs <- "call:" + err.Error()
+					} else if got != "echo:"+name+"/"+arg {
+						errs <- "wrong-answer:" + got + " from " + name
+						return
+					}
 				}
 			}(g, name)
 		}
@@ -498,6 +520,23 @@ func runC19(r *Rand, tier string, o *Out) {
 	cases := [][2]int{{2, 6}, {8, 6}, {32, 3}}
 	if tier == "thorough" {
 		cases = [][2]int{{2, 40}, {4, 30}, {8, 30}, {16, 20}, {32, 15}, {64, 6}}
+	}
+	// requests repeated while connections to other endpoints are being made, one endpoint behind a long address list
+	wides := [][2]int{{14, 2}}
+	if tier == "thorough" {
+		wides = [][2]int{{14, 6}, {28, 4}}
+	}
+	for _, c := range wides {
+		op := fmt.Sprintf("session.stress %d %d %d wide", c[0], c[1], int(r.U64()%100000))
+		res := o.Do("P", op, true)
+		o.Count("repeated-requests-while-connections-are-made")
+		if res != "ok" {
+			class := "concurrent Session.Proxy: " + res
+			if len(res) > 40 {
+				class = "concurrent Session.Proxy: " + res[:40]
+			}
+			o.Fail(class, op+" => "+res+" stderr: "+tail(lastFailDetail, 600))
+		}
 	}
 	for _, c := range cases {
 		seed := int(r.U64() % 100000)
